@@ -1099,6 +1099,14 @@ class NpProxy(types.ModuleType):
             return obj
         return self.array(obj, dtype=dtype)
 
+    def unique(self, a, axis=None, **kw):
+        arr = _real_np.asarray(a)
+        if arr.dtype == object:
+            # sorting needs concrete keys: integer-valued symbolic entries are decided (forking), as an index use would do
+            flat = [int(x) if isinstance(x, SV) else (bool(x) if isinstance(x, SB) else x) for x in arr.ravel()]
+            arr = _real_np.array(flat).reshape(arr.shape)
+        return _rewrap(_real_np.unique(arr, axis=axis, **kw))
+
     def isnan(self, a):
         if isinstance(a, np.ndarray) and a.dtype == object:
             f = np.frompyfunc(lambda x: x.isnan() if isinstance(x, SV) else (x != x if isinstance(x, float) else False), 1, 1)
@@ -1422,9 +1430,16 @@ class SSparse:
     todense = toarray
 
     def tocsc(self):
+        if getattr(self, "_coo", None) is not None:
+            return SSparse(self.d)            # conversion sums duplicate coordinates
         return self
 
-    tocsr = tolil = tocoo = todok = copy = tocsc
+    tocsr = tolil = todok = tocsc
+
+    def tocoo(self):
+        return self
+
+    copy = tocoo
 
     def astype(self, dtype, **kw):
         return self
@@ -1515,6 +1530,12 @@ class SSparse:
         self.d[key] = v
 
     def nonzero(self):
+        coo = getattr(self, "_coo", None)
+        if coo is not None:
+            # scipy's COO format keeps duplicate coordinates until it is converted: nonzero() lists every stored entry with data != 0
+            rows = [i for (i, j, v) in coo if bool(wrap(sx.ne(_num(v), 0)) if sx.is_sym(_num(v)) else _num(v) != 0)]
+            cols = [j for (i, j, v) in coo if bool(wrap(sx.ne(_num(v), 0)) if sx.is_sym(_num(v)) else _num(v) != 0)]
+            return (np.array(rows, dtype=int), np.array(cols, dtype=int))
         return self.d.nonzero()
 
     def __repr__(self):
@@ -1564,9 +1585,13 @@ class SpProxy(types.ModuleType):
         if isinstance(x, tuple) and len(x) == 2 and isinstance(x[1], tuple):
             data, (r, c) = x
             out = NP.zeros(shape)
+            entries = []
             for v, i, j in zip(data, r, c):
                 out[int(i), int(j)] = out[int(i), int(j)] + v
-            return SSparse(out)
+                entries.append((int(i), int(j), v))
+            res = SSparse(out)
+            res._coo = entries
+            return res
         return SSparse(x)
 
 
